@@ -270,7 +270,9 @@ func deriveOTP(seed uint64, acct, i int) string {
 }
 
 // AppKeys are session keys the application itself may set via /set.
-var AppKeys = []string{"app_theme", "app_cart", "app_lang"}
+// Two of them merely *contain* the name of a library key ("uid", "twofactor"):
+// a whitelist is a list of exact names.
+var AppKeys = []string{"app_theme", "app_cart", "app_lang", "visitor_uuid", "twofactor_hint"}
 
 // ProviderHost is the fake OAuth2 provider's host.
 const ProviderHost = "prov.example"
@@ -655,7 +657,7 @@ var AllSessionKeys = []string{
 	authboss.FlashSuccessKey, authboss.FlashErrorKey,
 	totp2fa.SessionTOTPSecret, totp2fa.SessionTOTPPendingPID,
 	sms2fa.SessionSMSNumber, sms2fa.SessionSMSSecret, "sms_secret_number", sms2fa.SessionSMSLast, sms2fa.SessionSMSPendingPID,
-	"app_theme", "app_cart", "app_lang",
+	"app_theme", "app_cart", "app_lang", "visitor_uuid", "twofactor_hint",
 }
 
 // Req is one client request.
